@@ -16,7 +16,6 @@ import (
 	"fmt"
 	"os"
 	"runtime"
-	"runtime/debug"
 	"runtime/pprof"
 	"sort"
 	"strings"
@@ -43,10 +42,11 @@ const (
 	evIndices
 	evFailNext
 	evBump
+	evAdvance // only in "early notice" configurations: the clock reaches the next slot, its tick is still pending
 	numEvents
 )
 
-var eventNames = []string{"tick", "reorg-previous", "reorg-current", "indices-change", "next-fetch-fails", "bump-assignment-version"}
+var eventNames = []string{"tick", "reorg-previous", "reorg-current", "indices-change", "next-fetch-fails", "bump-assignment-version", "clock-reaches-next-slot"}
 
 func pathString(p []byte) []string {
 	out := make([]string, len(p))
@@ -62,10 +62,18 @@ type config struct {
 	initFail  bool // the first fetch (possibly the one of HandleInitialDuties) fails
 	ticks     int  // number of ticks of a complete run
 	budget    int  // max number of non-tick events per run
+	// early: the clock reaching slot s and the handler taking tick(s) are two events, so notices
+	// (stamped with the new slot, as HandleHeadEvent does) can be processed before the tick of
+	// their slot - the order the handler's select produces when both channels are ready.
+	early bool
 }
 
 func (c config) String() string {
-	return fmt.Sprintf("%s start=%d initFail=%t ticks=%d nonTick<=%d", kindNames[c.kind], c.startSlot, c.initFail, c.ticks, c.budget)
+	e := ""
+	if c.early {
+		e = " early-notices"
+	}
+	return fmt.Sprintf("%s start=%d initFail=%t ticks=%d nonTick<=%d%s", kindNames[c.kind], c.startSlot, c.initFail, c.ticks, c.budget, e)
 }
 
 // ---- one live run: real handler + fakes + reference model ----
@@ -86,13 +94,14 @@ type run struct {
 
 	ticksDone int
 	used      int
+	pending   bool // early configurations: the clock is at the slot of a tick not yet delivered
 	hung      bool
 	timer     *time.Timer // hang detector, re-armed per send
 }
 
-// hang detector for a send the handler never accepts: 20 s, against the microseconds an honest
+// hang detector for a send the handler never accepts: 60 s, against the microseconds an honest
 // handler needs (it only ever shows on a modified tree; it is reported as a violation).
-const hangAfter = 20 * time.Second
+const hangAfter = 60 * time.Second
 
 func sendOrHang[T any](t *time.Timer, ch chan T, v T) bool {
 	select {
@@ -110,17 +119,14 @@ func sendOrHang[T any](t *time.Timer, ch chan T, v T) bool {
 	}
 }
 
-// barrier returns when the handler is parked in its select with nothing left to do: a reorg notice
-// with neither flag set is a no-op for every handler (checked by selfCheck); the first one is
-// accepted only after the previous event has been processed completely, the second one only
-// after the first has.
+// barrier: a reorg notice with neither flag set is a no-op for every handler (checked by selfCheck).
+// It is accepted only when the loop is back in its select, i.e. after the previous event has been
+// processed completely - this is how completion of an event is observed. A second one (quiesce)
+// is sent before the handler's private state is read, so that the no-op itself is over as well.
 func (r *run) barrier() bool {
-	slot := phase0.Slot(r.w.clock.Load())
-	for i := 0; i < 2; i++ {
-		if !sendOrHang(r.timer, r.reorg, duties.ReorgEvent{Slot: slot}) {
-			r.hung = true
-			return false
-		}
+	if !sendOrHang(r.timer, r.reorg, duties.ReorgEvent{Slot: phase0.Slot(r.w.clock.Load())}) {
+		r.hung = true
+		return false
 	}
 	return true
 }
@@ -183,8 +189,11 @@ func (r *run) enabled(e byte) bool {
 	if r.ticksDone >= r.cfg.ticks {
 		return false // nothing is observable after the last tick
 	}
+	if e == evAdvance {
+		return r.cfg.early && !r.pending
+	}
 	if e == evTick {
-		return true
+		return !r.cfg.early || r.pending
 	}
 	if r.used >= r.cfg.budget {
 		return false
@@ -204,9 +213,16 @@ func (r *run) step(e byte) (*violation, []string) {
 	isTick := e == evTick
 	ok := true
 	switch e {
+	case evAdvance:
+		w.clock.Store(w.clock.Load() + 1)
+		r.pending = true
 	case evTick:
-		s := w.clock.Load() + 1
-		w.clock.Store(s)
+		s := w.clock.Load()
+		if !r.cfg.early {
+			s++
+			w.clock.Store(s)
+		}
+		r.pending = false
 		r.ticker.slot.Store(s)
 		ok = sendOrHang(r.timer, r.ticker.c, time.Time{})
 		r.ticksDone++
@@ -228,10 +244,10 @@ func (r *run) step(e byte) (*violation, []string) {
 		w.version++
 		w.mu.Unlock()
 	}
-	if !isTick {
+	if !isTick && e != evAdvance {
 		r.used++
 	}
-	if !ok || !r.barrier() {
+	if !ok || (e != evFailNext && e != evBump && e != evAdvance && !r.barrier()) {
 		r.hung = true
 		return &violation{"handler-hung", fmt.Sprintf("handler did not accept / complete %s within %v", eventNames[e], hangAfter)}, nil
 	}
@@ -273,14 +289,23 @@ func (r *run) storeDump() string {
 // key: harness-owned environment + the handler's private flags and duty store (both read from the
 // real objects) + the reference model. Equal keys have equal futures.
 func (r *run) key() string {
+	if !r.hung && !r.barrier() {
+		ev.Fatal("%s: handler stopped accepting notices while its state was read", r.cfg)
+	}
 	w := r.w
 	w.mu.Lock()
 	env := fmt.Sprintf("slot=%d used=%d ver=%d vc=%d fail=%t", w.clock.Load(), r.used, w.version, w.vcSet, w.failNext)
+	if r.pending {
+		env += " tick-pending"
+	}
 	w.mu.Unlock()
 	return env + " | " + r.flags() + " | " + r.storeDump() + " | " + r.m.dump()
 }
 
 // ---- explorer ----
+
+// observations: first explored trace per handler of the labelDropped outcome (informational).
+var observations = map[handlerKind]map[string]interface{}{}
 
 type node struct {
 	key  string
@@ -336,6 +361,7 @@ func explore(r *ev.Run, c config, outcomes map[string]int, workers int) stats {
 	seen := map[string]bool{rootKey: true}
 	frontier := []node{{key: rootKey}}
 	st := stats{states: 1, complete: true}
+	var last node
 	for depth := 0; len(frontier) > 0; depth++ {
 		if r.Expired() {
 			r.CapHit(fmt.Sprintf("deadline in %s at depth %d", c, depth))
@@ -406,6 +432,10 @@ func explore(r *ev.Run, c config, outcomes map[string]int, workers int) stats {
 			st.transitions++
 			for _, l := range res.labels {
 				outcomes[kindNames[c.kind]+": "+l]++
+				if l == labelDropped && observations[c.kind] == nil && !c.early {
+					observations[c.kind] = map[string]interface{}{"handler": kindNames[c.kind], "config": c.String(), "events": pathString(res.path),
+						"observation": "at the last tick a duty of an assignment that had been fetched successfully was not dispatched: a notice made the handler drop the assignment and no re-fetch was attempted before the duty's slot (not a C16 violation under the weakest reading)"}
+				}
 			}
 			if res.viol != nil {
 				report(r, c, res.path, res.viol)
@@ -415,12 +445,14 @@ func explore(r *ev.Run, c config, outcomes map[string]int, workers int) stats {
 				seen[res.key] = true
 				st.states++
 				nf = append(nf, node{key: res.key, path: res.path})
-				if st.states%20000 == 0 {
-					r.Sample(map[string]interface{}{"handler": kindNames[c.kind], "events": pathString(res.path), "state": res.key})
-				}
+				last = nf[len(nf)-1]
 			}
 		}
 		frontier = nf
+	}
+	if last.path != nil {
+		// one complete explored run per configuration (the last state reached at the deepest level)
+		r.Sample(map[string]interface{}{"config": c.String(), "events": pathString(last.path), "final_state": last.key})
 	}
 	return st
 }
@@ -436,7 +468,7 @@ func report(r *ev.Run, c config, path []byte, v *violation) {
 	sig := fmt.Sprintf("%s %s", kindNames[c.kind], v.clause)
 	r.Violate(sig, v.what, "c16-"+kindNames[c.kind], map[string]interface{}{
 		"handler": kindNames[c.kind], "start_slot": c.startSlot, "init_fetch_fails": c.initFail,
-		"ticks": c.ticks, "budget": c.budget, "events": pathString(path), "path": encodePath(path),
+		"ticks": c.ticks, "budget": c.budget, "early_notices": c.early, "events": pathString(path), "path": encodePath(path),
 		"slots_per_epoch": slotsPerEpoch, "epochs_per_sync_period": epochsPerPeriod,
 	}, v.clause, "no violation of the C16 clauses")
 }
@@ -479,8 +511,11 @@ func rerun(c config, path []byte, verbose bool) *violation {
 func selfCheck(c config) {
 	r, _ := newRun(c)
 	defer r.close()
-	for _, e := range []byte{evTick, evTick, evTick, evTick} {
-		r.step(e)
+	for i := 0; i < 4; i++ {
+		if c.early {
+			r.step(evAdvance)
+		}
+		r.step(evTick)
 	}
 	k1 := r.key()
 	for i := 0; i < 3; i++ {
@@ -507,28 +542,51 @@ func main() {
 		replay(r)
 		return
 	}
-	debug.SetGCPercent(800) // allocation-heavy replays, plenty of memory
 	workers := runtime.NumCPU()
 	if workers > 16 {
 		workers = 16
 	}
-	budget := 3
-	starts := []int{15}
-	if r.Thorough() {
-		budget = 5
-		starts = []int{15, 18}
+	// plan: start slot, budget of non-tick events, early notices, which (handler, initial fetch
+	// fails) combinations. With start slot 15 the fetch of HandleInitialDuties concerns an epoch /
+	// period that is over at the first tick, so a failing initial fetch is only distinct for the
+	// attester (which has no initial fetch: its first tick's fetch fails instead).
+	type combo struct {
+		kind     handlerKind
+		initFail bool
 	}
-	if s := os.Getenv("C16_BUDGET"); s != "" {
-		fmt.Sscan(s, &budget)
+	type planEntry struct {
+		start, budget int
+		early         bool
+		combos        []combo
+	}
+	all := []combo{{kindAttester, false}, {kindAttester, true}, {kindProposer, false}, {kindProposer, true}, {kindSync, false}, {kindSync, true}}
+	noFail := []combo{{kindAttester, false}, {kindProposer, false}, {kindSync, false}}
+	plan := []planEntry{
+		{15, 3, false, []combo{{kindAttester, false}, {kindAttester, true}, {kindProposer, false}, {kindSync, false}}},
+		{18, 3, false, []combo{{kindProposer, true}, {kindSync, true}}}, // mid-epoch start, failing initial fetch
+		{15, 2, true, noFail},
+	}
+	if r.Thorough() {
+		plan = []planEntry{{15, 5, false, all}, {18, 5, false, all}, {15, 4, true, noFail}}
+	}
+	if s := os.Getenv("C16_PLAN"); s != "" { // development aid: "start,budget,early;..."
+		plan = nil
+		for _, f := range strings.Split(s, ";") {
+			pe := planEntry{combos: all}
+			var e int
+			fmt.Sscanf(f, "%d,%d,%d", &pe.start, &pe.budget, &e)
+			pe.early = e != 0
+			plan = append(plan, pe)
+		}
 	}
 	const ticks = 3 * slotsPerEpoch
 	outcomes := map[string]int{}
 	exhaustive := true
 	var bounds []string
-	for _, start := range starts {
-		for _, k := range []handlerKind{kindAttester, kindProposer, kindSync} {
-			for _, initFail := range []bool{false, true} {
-				c := config{kind: k, startSlot: start, initFail: initFail, ticks: ticks, budget: budget}
+	for _, pe := range plan {
+		for _, cb := range pe.combos {
+			{
+				c := config{kind: cb.kind, startSlot: pe.start, initFail: cb.initFail, ticks: ticks, budget: pe.budget, early: pe.early}
 				selfCheck(c)
 				t0 := time.Now()
 				st := explore(r, c, outcomes, workers)
@@ -551,8 +609,13 @@ func main() {
 	r.Set("alphabet", eventNames)
 	r.Set("distinct_outcomes", len(outcomes))
 	r.Set("outcome_histogram", outcomes)
-	r.Sample(map[string]interface{}{"handler": "attester", "events": []string{"tick", "tick", "tick", "bump-assignment-version", "reorg-previous", "tick"},
-		"note": "every event sequence with 24 ticks and at most the stated number of non-tick events is explored by state"})
+	var obs []interface{}
+	for _, k := range []handlerKind{kindAttester, kindProposer, kindSync} {
+		if o := observations[k]; o != nil {
+			obs = append(obs, o)
+		}
+	}
+	r.Set("observations_beyond_the_property", obs)
 	r.Assume(
 		"handlers are driven directly through Setup/HandleInitialDuties/HandleDuties as Scheduler.Start does, one handler at a time (they share no state); the scheduler's two fan-out goroutines are replaced by the explicit enumeration of the order of reorg and indices-change notices",
 		"dispatch = one duty in one call of the ExecuteDutiesFunc handed to the handler (Scheduler.ExecuteDuties' waiting for one third of the slot is not part of this check)",
@@ -578,6 +641,9 @@ func replay(r *ev.Run) {
 	}
 	c := config{startSlot: int(tr["start_slot"].(float64)), initFail: tr["init_fetch_fails"].(bool),
 		ticks: int(tr["ticks"].(float64)), budget: int(tr["budget"].(float64))}
+	if e, ok := tr["early_notices"].(bool); ok {
+		c.early = e
+	}
 	for i, n := range kindNames {
 		if n == tr["handler"].(string) {
 			c.kind = handlerKind(i)
